@@ -763,6 +763,16 @@ fn fixed_shapes(out: &mut Vec<String>, r: &mut Rng, as_buffer: bool) {
         }
         return;
     }
+    // strings whose length sits exactly at a LEB128 prefix boundary (128 = 2^7, 16384 = 2^14 and their neighbours)
+    for n in [127usize, 128, 129, 16383, 16384, 16385, 16511, 16512] {
+        let name = |c: char| c.to_string().repeat(n);
+        let lm = format!("{} -> {}:\n    1:2:void {}({}):5:6 -> {}\n", name('o'), name('k'), name('m'), name('t'), name('f'));
+        push_mapping(out, lm.as_bytes());
+        out.push(format!("K {}", h(&name('k'))));
+        out.push(format!("T {} {}", h(&name('k')), h(&name('f'))));
+        out.push(format!("L {} {} 1 ~", h(&name('k')), h(&name('f'))));
+        out.push(format!("P {} {} {}", h(&name('k')), h(&name('f')), h(&name('t'))));
+    }
     push_mapping(out, m.as_bytes());
     emit_queries(out, m.as_bytes(), r, QuerySel { class: true, method: true, lines: true, params: true, all_lines: false, both_files: true });
     for (c, mth) in [("s.a", "m"), ("s.b", "m"), ("s.c", "x"), ("s.d", "m")] {
